@@ -423,7 +423,7 @@ def c04(out, tier):
     units = tok_units(TC, tok, prog, k, classes, vs, bases, kind="C04", compare=False, line_oracle=False)
     # every state again with the probe suffix, and concrete prefixes that park the tokenizer inside character references,
     # look-ahead and attribute machinery
-    units += tok_units(TC, tok, prog, k, [[1] * k], vs, [BASE, dict(BASE, exact_errors=True)], kind="C04", compare=False, line_oracle=False,
+    units += tok_units(TC, tok, prog, k, [[1] * k], vs, [BASE] + ([dict(BASE, exact_errors=True)] if tier == "thorough" else []), kind="C04", compare=False, line_oracle=False,
                        suffix=[ord(c) for c in PROBE])
     for (st, pre) in (("Data", "&zz"), ("Data", "&#"), ("Data", "&#x"), ("Data", "&am"), ("Data", "&notit"), ("Data", "<!-"), ("Data", "</a"), ("Data", "<a b="),
                       ("Data", "<!DOCTYPE a PUBLI"), ("Data", "<![CDAT"), (("AttributeValue", "DoubleQuoted"), "&zz"), (("RawData", "Rcdata"), "&zz"),
@@ -1007,7 +1007,7 @@ def tree_units(prop, tier):
                 add("%r then %s" % (c, en), ev(c))
         # adoption agency / reconstruction / foster parenting: symbolic one-letter names (a b i s u are formatting elements,
         # p is a block that closes, q is an ordinary element) in four arrangements under six contexts
-        for c in ("", "<div>", "<p>", "<table>", "<table><tr><td>", "<template>"):
+        for c in (("", "<p>", "<table>", "<template>") if q else ("", "<div>", "<p>", "<table>", "<table><tr><td>", "<template>")):
             add("%r two elements, a block, end tag" % c, [c, "<", N1, "><", N1, "><p>x</", N1, ">y"])
             add("%r formatting run" % c, [c, "<", N1, "><", N1, ">x<p>y</", N1, ">z</b>w"])
             add("%r formatting run closed by a symbolic end tag" % c, [c, "<b><", N1, ">x<p>y</", N1, ">z</", N1, ">w"])
@@ -1037,7 +1037,7 @@ def tree_units(prop, tier):
         for t in tops:
             add("%r then start tag (2 letters), text" % t, [t, "<", N2, ">", W2])
             add("%r then end tag (2 letters), start tag (1 letter), text" % t, [t, "</", N2, ">", "<", N1, ">", W1])
-            add("%r then symbolic characters" % t, [t, 3])
+            add("%r then symbolic characters" % t, [t, 3 if (not q or t in ("", "<html><head></head>", "<html><head></head><body></body></html>")) else 2])
             if not q:
                 add("%r then two start tags, end tag" % t, [t, "<", N1, ">", W1, "<", N1, ">", "</", N1, ">x"])
         # every top-level position x every element name the pre-body insertion modes mention, then symbolic text
